@@ -184,14 +184,24 @@ let wt_case f =
   let t = List.map nat_of_int syms in
   let n = List.length syms in
   let alpha = List.sort_uniq compare syms in
-  let out = ref [ "len=" ^ show_nat (wt_len t) ] in
-  let push s = out := s :: !out in
-  push ("a=" ^ String.concat "," (List.init (n + 1) (fun i -> show_opt show_nat (wt_access t (nat_of_int i)))));
-  List.iter (fun q ->
-    let cnt = List.length (List.filter (fun x -> x = q) syms) in
-    push (Printf.sprintf "r%d=%s" q (String.concat "," (List.init (n + 2) (fun i -> show_opt show_nat (wt_rank_q t (nat_of_int q) (nat_of_int i))))));
-    push (Printf.sprintf "s%d=%s" q (String.concat "," (List.init (cnt + 2) (fun k -> show_opt show_nat (wt_select_q t (nat_of_int q) (nat_of_int k))))))) alpha;
-  String.concat " " (List.rev !out)
+  (* once through the list interface (the wt_ functions), once through the structural model of
+     prefix::WaveletTree<FixedWidthEncoder> (the pt_ functions over fw_tree) *)
+  let tables len access rank select =
+    let out = ref [ "len=" ^ len ] in
+    let push s = out := s :: !out in
+    push ("a=" ^ String.concat "," (List.init (n + 1) (fun i -> show_opt show_nat (access (nat_of_int i)))));
+    List.iter (fun q ->
+      let cnt = List.length (List.filter (fun x -> x = q) syms) in
+      push (Printf.sprintf "r%d=%s" q (String.concat "," (List.init (n + 2) (fun i -> show_opt show_nat (rank (nat_of_int q) (nat_of_int i))))));
+      push (Printf.sprintf "s%d=%s" q (String.concat "," (List.init (cnt + 2) (fun k -> show_opt show_nat (select (nat_of_int q) (nat_of_int k))))))) alpha;
+    String.concat " " (List.rev !out) in
+  let iface = tables (show_nat (wt_len t)) (wt_access t) (wt_rank_q t) (wt_select_q t) in
+  let structural =
+    match fw_tree t with
+    | Ok (tree, chars) ->
+        tables (string_of_int n) (pt_access (fw_dec chars) tree) (pt_rank_q (fw_enc chars) tree) (pt_select_q (fw_enc chars) tree)
+    | Err -> "CE" | Panic -> "CP" | NoFuel -> "CF" in
+  iface ^ " || " ^ structural
 
 let sais_case f =
   let text = List.map n_of_int (nums (List.nth f 1)) in
